@@ -25,7 +25,7 @@ class Sgp4(AnalyticalPropagator):
             orbit (Orbit)
         """
 
-        self._orbit = orbit
+        self._orbit = orbit.copy()
         tle = Tle.from_orbit(orbit)
         lines = tle.text.splitlines()
 
